@@ -10,6 +10,7 @@ import (
 	"net/url"
 	"strings"
 	"sync"
+	"time"
 
 	"verifsim/kernel"
 	"verifsim/simnet"
@@ -576,6 +577,19 @@ func runH2(k *kernel.K, focus string) {
 					// the connection when the relay is about to close it
 					rcv.Do(&H2Op{Kind: "ping", Ping: [8]byte{0xac, 1}})
 				}
+			} else if w.Chance(1, 2) {
+				// the credit comes in two instalments: the streams first, the connection a little
+				// later (what is still queued then waits for connection credit only)
+				k.Probe("stream_credit_before_connection_credit")
+				for _, id := range streamsOf(snd.Sent) {
+					rcv.GrantExtra(id, 1<<24)
+				}
+				k.Drain()
+				k.FastAdvance = true
+				k.Advance(200 * time.Millisecond)
+				k.FastAdvance = false
+				k.Drain()
+				rcv.GrantExtra(0, 1<<24)
 			} else {
 				rcv.OpenAllWindows(streamsOf(snd.Sent))
 			}
